@@ -139,6 +139,14 @@ pub fn interpret(p: &RefPos, legal: &[RMove], t: &SanText) -> Expect {
         // castling spelled as a king move ("Kg1"): not SAN, but harmless either way
         return Expect::Either(m);
     }
+    // an 'x' says "capture": when the one fitting move captures nothing, the text denotes no legal move
+    // (the statement: 'x' on captures; a text that denotes no legal move is rejected).  A MISSING 'x' on a
+    // capture stays in the tolerant zone below.
+    // (with an ' e.p.' suffix the library is lenient about the x — "Rxh1 e.p." is taken for Rh1 —; that stays in
+    // the tolerant zone T4 with the other unvalidated markers)
+    if t.takes && !t.ep && !p.is_capture(m) {
+        return Expect::MustErr;
+    }
     // pawn moves: the conventional forms are "e4" (no source), "exd5" (file) and the full
     // square; a lone source rank ("4xd5") or a file on a push ("ee4") is grammar the library's
     // own comments call illegal although its scanner takes it: either answer
